@@ -130,6 +130,17 @@ def monStep (m : Mon) (l : Line) : Mon :=
     let m := if m.begins c > 1 then addv m s!"callback {c} invoked {m.begins c} times" else m
     if m.dtorDone c then addv m s!"callback {c} invoked after its destructor returned" else m
   | "cb.end" => { m with runningOn := upd m.runningOn c none }
+  -- follow-up C14p: the destructor's decision and request_stop's last accesses, from observables only
+  | "stop.self" =>
+    if l.a == 0 && m.runningOn c == some t then
+      addv m s!"callback {c}: its destructor on thread {t} takes the waiting branch while the callback runs on the same thread"
+    else m
+  | "stop.fin" =>
+    if l.a == 0 && m.dtorDone c then
+      addv m s!"callback {c}: request_stop stored the finished flag into the object after its destructor returned"
+    else m
+  | "stop.pre_exec" =>
+    if m.dtorDone c then addv m s!"callback {c}: request_stop is about to publish is_removed_ after its destructor returned" else m
   | "q" =>
     let m := if l.a == 0 && (m.rsDoneAny || m.qSeen) then
         addv m "stop_requested() is false after a stop request was observed" else m
